@@ -128,19 +128,24 @@ EXO = '(sg_count(xt_sigma, ls) == 1)'
 
 
 def exo_contract(nl):
-    mc = max(nl * (nl - 1) // 2, nl) + 1
+    """the exactly-one literal is a variable of its own (it implies the at-most-one literal and the at-least-one clause), so
+    up to two variables are created: N0 (the at-most-one's) and N0 + 1 (the result); on the root-true shortcut the only new
+    variable is new_conj's"""
+    mc = max(nl * (nl - 1) // 2, nl) + 2
+    NEWV = ('(self->assigns.n == %s || (sg_lit(xt_sigma, sp_mk_lit(self->assigns.n - 1, 1)) == %s && '
+            '(self->assigns.n != %s + 2 || sg_lit(xt_sigma, sp_mk_lit(%s, 1)) == %s)))' % (N0, EXO, N0, N0, AMO))
     return Contract(
-        requires=pre(mc, 1, ['sp_lits_ok(self->assigns, ls, %d)' % nl], exprs_room=3),
+        requires=pre(mc, 2, ['sp_lits_ok(self->assigns, ls, %d)' % nl], exprs_room=4),
         ensures=[('noexcept', '__exc == 0'),
                  ('result_in_range', 'sp_var(%s) < self->assigns.n' % R),
                  ('forces_constraint', '!(sg_ext(xt_sigma, self->assigns) && %s && sg_lit(xt_sigma, %s)) || %s' % (LOG, R, EXO)),
                  ('root_assignment_unchanged', UNCHANGED),
-                 ('excludes_nothing', '!(sg_ext(xt_sigma, %s) && (self->assigns.n == %s || sg_lit(xt_sigma, sp_mk_lit(%s, 1)) == %s)) || (%s && (!%s || sg_lit(xt_sigma, %s) || self->assigns.n == %s))' % (
-                     A0, N0, N0, EXO, LOG, EXO, R, N0)),
-                 ('creates_variable_when_open', '!(sp_open_count(%s, ls) >= 2 && !sp_any_root_true(%s, ls)) || self->assigns.n == %s + 1' % (A0, A0, N0)),
+                 ('excludes_nothing', '!(sg_ext(xt_sigma, %s) && %s) || (%s && (!%s || sg_lit(xt_sigma, %s) || self->assigns.n == %s))' % (A0, NEWV, LOG, EXO, R, N0)),
+                 ('creates_its_own_variable_when_open', '!(sp_open_count(%s, ls) >= 2 && !sp_any_root_true(%s, ls)) || self->assigns.n == %s + 2' % (A0, A0, N0)),
                  ('true_when_satisfied_without_new_variable', '!(self->assigns.n == %s && sg_ext(xt_sigma, %s) && %s) || sg_lit(xt_sigma, %s)' % (N0, A0, EXO, R)),
-                 ('at_most_one_new_variable', 'self->assigns.n <= %s + 1' % N0),
-                 ('log_bounded', 'xt_ncl >= %s && xt_ncl <= %s + %d' % (NCL0, NCL0, mc)), ('exprs_growth_bounded', 'self->exprs.n <= __CPROVER_old(self->exprs.n) + 3'), RES_IS_NEW],
+                 ('at_most_two_new_variables', 'self->assigns.n <= %s + 2' % N0),
+                 ('log_bounded', 'xt_ncl >= %s && xt_ncl <= %s + %d' % (NCL0, NCL0, mc)), ('exprs_growth_bounded', 'self->exprs.n <= __CPROVER_old(self->exprs.n) + 4'),
+                 ('result_is_the_last_new_variable', 'self->assigns.n == %s || %s.x == sp_mk_lit(self->assigns.n - 1, 1).x' % (N0, R))],
         assigns=FRAME)
 
 
@@ -212,7 +217,7 @@ def jobs(tier):
     c = exo_contract(NA)
     c.requires += REC
     J('new_exct_one', EXO_T, c,
-      d=dict(defines(nv0, maxv=6, maxcl=max(NA * (NA - 1) // 2, NA) + 1, maxlits=3, exprs_cap=4, str_cap=(6 if NA == 2 else 8)), CM_SQRT_UNREACHABLE=1), mem_gb=40,
+      d=dict(defines(nv0, maxv=6, maxcl=max(NA * (NA - 1) // 2, NA) + 2, maxlits=3, exprs_cap=5, str_cap=(6 if NA == 2 else 8)), CM_SQRT_UNREACHABLE=1), mem_gb=40,
       replace=(NEW_VAR, NEW_CLAUSE, AMO_T, CONJ_T), callee={AMO_T: amo_contract(NA), CONJ_T: conj_contract(NA - 1)},
       replay=RP_LS + '''  lit ret = sat->new_exct_one(ls);
   auto exo = [&](unsigned long s) { std::set<size_t> t; for (auto &l : ls) if (sg(s, l)) t.insert(index(l)); return t.size() == 1; };
@@ -261,6 +266,11 @@ def jobs(tier):
                    abstract_fields={'smt::sat_core': ['assigns', 'exprs', 'watches', 'level', 'reason'], 'smt::constr': []}, harness_pre=HPRE, timeout=1200, force_types=['std::vector<smt::lit>'],
                    bounded='<= 5 pre-existing variables'))
 
+    # ---- histories of two requests (cache hit or miss): see c13_pairs.py
+    import sys
+    from contracts import c13_pairs
+    out.extend(c13_pairs.jobs(sys.modules[__name__], tier))
+
     # ---- new_at_most_one, product encoding (>= 4 literals), on a CONCRETE argument structure with a symbolic assignment:
     # the harness owns the network (6 variables, all undecided, empty cache) and passes 5 distinct literals of fixed signs, so
     # the grid (3 x 2, not square) is built concretely, the recursion on the row/column selectors and new_conj run inline, and
@@ -269,6 +279,7 @@ def jobs(tier):
     dP = dict(defines(nv0, maxv=NP + 1 + 9, maxcl=24, maxlits=NP, exprs_cap=16, str_cap=12), XT_NP=NP)
     HARN = '''void xt_harness(void)
 {
+  __exc = 0;
   xt_init_globals();
   { unsigned int sg; xt_sigma = sg; }
   struct smt_sat_core s;
